@@ -212,7 +212,7 @@ def argv_strategy(draw, big=False):
         if k == '--load':
             add(k, [num(draw(st.sampled_from(['50', '50+3j', '10-20j', '0', '1e6', '-5+1j'])), 'c')])
         elif k == '--rlc-load':
-            flds = [num(draw(st.sampled_from([1.0, 100.0]))), num(1e-6), num(1e-9)]
+            flds = [num(draw(st.sampled_from([1.0, 100.0, 0.0]))), num(draw(st.sampled_from([1e-6, 1e-6, 0.0]))), num(draw(st.sampled_from([1e-9, 1e-9, 0.0])))]
             m_ = draw(st.sampled_from(['RLC', 'RL', 'R', 'LC', 'C', 'RC']))
             flds = [fl if c in m_ else ['', 'e'] for fl, c in zip(flds, 'RLC')]
             add(k, flds)
@@ -270,9 +270,9 @@ def argv_strategy(draw, big=False):
             # (downward sweeps may end exactly at 0 MHz or cross it)
             add('--frequency-increment', [num(draw(st.sampled_from([0.5, 1.0, -0.1, -f, -f / 2, -f / max(1, nst - 1), -2 * f])))])
     outfiles = []
-    if draw(st.integers(0, 7)) == 0:
+    if draw(st.integers(0, 3)) == 0:
         outfiles.append('--output-cmdline')
-    if draw(st.integers(0, 7)) == 0:
+    if draw(st.integers(0, 3)) == 0:
         outfiles.append('--output-basic-input')
         if draw(st.booleans()):
             add('--mininec-version', [[draw(st.sampled_from(['9', '12', '13'])), 's']])
